@@ -16,6 +16,11 @@ def FAIL(detail):
     return ("FAIL", detail)
 
 
+def INCONCLUSIVE(detail):
+    """This path cannot be judged by the harness (not a pass, not a violation): the check exits 2."""
+    return ("INCONCLUSIVE", detail)
+
+
 def check(cond, detail="oracle false"):
     """The assertion site of a harness."""
     if TWIN:
